@@ -435,12 +435,19 @@ class Wrap(W(S)) {}
 class WrapOne(WO(One)) {}
 class Ma(MaX, MaY(Mb)) {}
 class Mb(MbP, MbQ(Ma)) {}
+class Look(Fnd(One), Mis(int)) {}
+class Look2(Fnd2(S), Mis2(int)) {}
 '''
+
+_LBASE_ALL = ['int', 'Str', 'S', 'One', 'Nat', 'Wrap', 'WrapOne', 'Ma', 'Mb', 'Look', 'Look2']
+# without single-field structs (a one-element array compared with == against a tag number is the open TS finding)
+_LBASE_MULTI = ['int', 'Str', 'S', 'Nat', 'Wrap', 'Ma', 'Mb', 'Look2']
+_LBASE = [_LBASE_ALL]
 
 
 def _lt(rng, depth):
     if depth <= 0 or rng.chance(1, 4):
-        return rng.pick(['int', 'Str', 'S', 'One', 'Nat', 'Wrap', 'WrapOne', 'Ma', 'Mb'])
+        return rng.pick(_LBASE[0])
     g = rng.pick(['Opt', 'Opt', 'Box', 'Two', 'Tri'])
     return (g, _lt(rng, depth - 1))
 
@@ -456,20 +463,24 @@ def _lvals(rng, t, k):
     if t == 'Str':
         return '"s%d"' % rng.below(3)
     if t == 'S':
-        return 'S.init(%d, %d)' % (rng.below(5), rng.below(5))
+        return 'S.init(%d, %d)' % (rng.below(8), rng.below(5))   # field 0 ranges over the values used as variant tags
     if t == 'One':
-        return 'One.init(%d)' % rng.below(6)
+        return 'One.init(%d)' % rng.below(8)      # small: field 0 of a struct can collide with a variant tag
     if t == 'Nat':
         n = rng.below(3)
         return 'Nat.Succ(' * n + 'Nat.Zero()' + ')' * n
     if t == 'Wrap':
-        return 'Wrap.W(S.init(%d, 1))' % rng.below(4)
+        return 'Wrap.W(S.init(%d, 1))' % rng.below(8)
     if t == 'WrapOne':
-        return 'WrapOne.WO(One.init(%d))' % rng.below(6)
+        return 'WrapOne.WO(One.init(%d))' % rng.below(8)
     if t == 'Ma':
         return rng.pick(['Ma.MaX()', 'Ma.MaY(Mb.MbP())', 'Ma.MaY(Mb.MbQ(Ma.MaX()))'])
     if t == 'Mb':
         return rng.pick(['Mb.MbP()', 'Mb.MbQ(Ma.MaX())', 'Mb.MbQ(Ma.MaY(Mb.MbP()))'])
+    if t == 'Look':
+        return 'Look.Fnd(One.init(%d))' % rng.below(8) if rng.chance(1, 2) else 'Look.Mis(%d)' % rng.below(8)
+    if t == 'Look2':
+        return 'Look2.Fnd2(S.init(%d, 2))' % rng.below(8) if rng.chance(1, 2) else 'Look2.Mis2(%d)' % rng.below(8)
     g, a = t
     ta = '<%s>' % _tname(a)
     if g == 'Opt':
@@ -493,7 +504,7 @@ def _larms(t, prefix, cnt):
     if t == 'S':
         x = 'x%d' % cnt[0]
         cnt[0] += 1
-        return [('{ a as %s, b }' % x if cnt[0] % 2 else '(%s, _)' % x, x)]
+        return [(('{ a as %s, b }', '{ b, a as %s }', '(%s, _)')[cnt[0] % 3] % x, x)]     # object patterns in and out of field order
     if t == 'One':
         x = 'x%d' % cnt[0]
         cnt[0] += 1
@@ -512,6 +523,14 @@ def _larms(t, prefix, cnt):
         return [('MaX', '0'), ('MaY(MbP)', '1'), ('MaY(MbQ(_))', '2')]
     if t == 'Mb':
         return [('MbP', '0'), ('MbQ(MaX)', '1'), ('MbQ(MaY(_))', '2')]
+    if t == 'Look':
+        x = 'x%d' % cnt[0]
+        cnt[0] += 1
+        return [('Mis(%s)' % x, '%s + 50' % x), ('Fnd((%s))' % x, x)]     # the boxed variant is tested first
+    if t == 'Look2':
+        x = 'x%d' % cnt[0]
+        cnt[0] += 1
+        return [('Mis2(%s)' % x, '%s + 50' % x), ('Fnd2((%s, _))' % x, x)]
     g, a = t
     inner = _larms(a, prefix, cnt)
     out = []
@@ -531,13 +550,154 @@ def _larms(t, prefix, cnt):
     return out
 
 
-def gen_layout_program(rng, nty=4):
+def _lall(t, cap=48):
+    """Many values of type t: every constructor path, struct fields ranging over the small numbers used as variant tags."""
+    if t == 'int':
+        return ['-1', '0', '1', '5']
+    if t == 'Str':
+        return ['"s0"']
+    if t == 'S':
+        return ['S.init(%d, 1)' % a for a in range(8)]
+    if t == 'One':
+        return ['One.init(%d)' % a for a in range(8)]
+    if t == 'Nat':
+        return ['Nat.Zero()', 'Nat.Succ(Nat.Zero())', 'Nat.Succ(Nat.Succ(Nat.Zero()))']
+    if t == 'Wrap':
+        return ['Wrap.W(S.init(%d, 1))' % a for a in range(8)]
+    if t == 'WrapOne':
+        return ['WrapOne.WO(One.init(%d))' % a for a in range(8)]
+    if t == 'Ma':
+        return ['Ma.MaX()', 'Ma.MaY(Mb.MbP())', 'Ma.MaY(Mb.MbQ(Ma.MaX()))']
+    if t == 'Mb':
+        return ['Mb.MbP()', 'Mb.MbQ(Ma.MaX())', 'Mb.MbQ(Ma.MaY(Mb.MbP()))']
+    if t == 'Look':
+        return ['Look.Fnd(One.init(%d))' % a for a in range(8)] + ['Look.Mis(%d)' % a for a in range(8)]
+    if t == 'Look2':
+        return ['Look2.Fnd2(S.init(%d, 2))' % a for a in range(8)] + ['Look2.Mis2(%d)' % a for a in range(8)]
+    g, a = t
+    ta = '<%s>' % _tname(a)
+    inner = _lall(a, cap)
+    if g == 'Opt':
+        out = ['Opt.Non%s()' % ta] + ['Opt.Som(%s)' % v for v in inner]
+    elif g == 'Box':
+        out = ['Box.Only(%s)' % v for v in inner]
+    elif g == 'Two':
+        out = ['Two.Lft(%s)' % v for v in inner] + ['Two.Rgt(%s)' % v for v in inner]
+    else:
+        out = ['Tri.Emp%s()' % ta] + ['Tri.Mid(%s)' % v for v in inner] + ['Tri.Big(%s, %d)' % (v, i % 4) for i, v in enumerate(inner)]
+    if len(out) > cap:                                  # keep every constructor represented
+        step = len(out) / float(cap)
+        out = [out[int(i * step)] for i in range(cap)]
+    return out
+
+
+def layout_search_programs(depth=2):
+    """Search phase after a layout disagreement: one function per type of the catalogue (all types up to `depth` generic
+    levels), applied to many values each. Deterministic."""
+    base = ['int', 'S', 'One', 'Nat', 'Wrap', 'WrapOne', 'Ma', 'Mb', 'Look', 'Look2']
+    types = list(base)
+    level = list(base)
+    for _ in range(depth):
+        level = [(g, a) for g in ('Opt', 'Box', 'Two', 'Tri') for a in level]
+        types += level
+    progs = []
+    for k in range(0, len(types), 3):
+        funs, prints = [], []
+        for i, t in enumerate(types[k:k + 3]):
+            arms = _larms(t, 'p', [0])
+            funs.append('  function sh%d(v: %s): int = match v { %s }' % (i, _tname(t), ', '.join('%s -> %s' % a for a in arms)))
+            for v in _lall(t):
+                prints.append('    Process.println(Str.fromInt(Main.sh%d(%s)));' % (i, v))
+        text = LAYOUT_DECLS + 'class Main {\n' + '\n'.join(funs) + '\n  function main(): unit = {\n' + '\n'.join(prints) + '\n  }\n}\n'
+        progs.append({'sources': {'Main': text}, 'entry': 'Main', 'features': ['layout-search']})
+    return progs
+
+
+def gen_builtin_program(rng):
+    """Straight-line exercise of the runtime library (Str.fromInt / toInt / concat / equality, every Vec operation) on
+    boundary and random arguments. Integers reach the calls through "0".toInt() so that nothing is folded at compile time;
+    Vec<int> elements stay inside 30 bits (the Vec<int> i31 finding is a separate, registered class)."""
+    L = []
+    nums = [0, 1, -1, 9, -9, 10, -10, 12, -12, 21, -21, 99, -99, 100, -100, 1068, -1068, 12345, -12345, 120034, -120034,
+            999999, -999999, 1000000, 2147483647, -2147483647]
+    for d in range(1, 11):                                      # every digit count, both signs
+        lo, hi = 10 ** (d - 1), min(10 ** d - 1, 2147483647)
+        for _ in range(2):
+            n = lo + rng.below(hi - lo + 1)
+            nums += [n, -n]
+    for n in nums:
+        L.append('    Process.println(Str.fromInt(z + %s));' % (('(%d)' % n) if n < 0 else str(n)))
+    L.append('    Process.println(Str.fromInt(z - 2147483647 - 1));')
+    for t in ['0', '7', '-7', '42', '-42', '1068', '-1068', '2147483647', '-2147483648', '0012', '-0']:
+        L.append('    Process.println(Str.fromInt("%s".toInt() + z));' % t)
+    L.append('    Process.println("a" :: Str.fromInt(z) :: "b" :: "" :: Str.fromInt(z - 35));')
+    L.append('    Main.show("str-eq-1", ("ab" :: Str.fromInt(z)) == "ab0");')
+    L.append('    Main.show("str-eq-2", ("ab" :: Str.fromInt(z)) == "ab");')
+    L.append('    Main.show("str-eq-3", ("" :: Str.fromInt(z)) != "0");')
+    # two vectors driven through a random operation sequence; lengths tracked here so that every access is in bounds
+    lens = {'a': 0, 'b': 0}
+    L.append('    let a = Vec.empty<int>();')
+    L.append('    let b = Vec.withCapacity<int>(z + %d);' % rng.below(4))
+    val = lambda: 'z + %d' % rng.range(-5, 20)
+    for i in range(rng.range(10, 24)):
+        v = rng.pick(['a', 'b'])
+        k = rng.below(100)
+        if k < 35 or lens[v] == 0:
+            L.append('    %s.push(%s);' % (v, val() if rng.chance(2, 3) else 'z + %d' % (12 + lens[v])))
+            lens[v] += 1
+        elif k < 45:
+            L.append('    Process.println(Str.fromInt(%s.pop()));' % v)
+            lens[v] -= 1
+        elif k < 60:
+            L.append('    %s.set(z + %d, %s);' % (v, rng.below(lens[v]), val()))
+        elif k < 75:
+            L.append('    Process.println(Str.fromInt(%s.get(z + %d)));' % (v, rng.below(lens[v])))
+        elif k < 85:
+            L.append('    Process.println(Str.fromInt(%s.length()));' % v)
+        else:
+            L.append('    %s.reserve(z + %d);' % (v, rng.below(9)))
+        if rng.chance(1, 3):
+            L.append('    Main.show("a.eq(b)@%d", a.eq(b));' % i)
+            L.append('    Main.show("b.eq(a)@%d", b.eq(a));' % i)
+    # prefixes, equal contents, empty against non-empty
+    L.append('    let c = Vec.of(z + 12);')
+    L.append('    let d = Vec.of(z + 12);')
+    L.append('    Main.show("c.eq(d)", c.eq(d));')
+    L.append('    d.push(z + 13);')
+    L.append('    Main.show("prefix.eq(longer)", c.eq(d));')
+    L.append('    Main.show("longer.eq(prefix)", d.eq(c));')
+    L.append('    c.push(z + 13);')
+    L.append('    Main.show("same again", c.eq(d));')
+    L.append('    c.set(z + 1, z + 14);')
+    L.append('    Main.show("last differs", c.eq(d));')
+    L.append('    Main.show("empty.eq(nonempty)", Vec.empty<int>().eq(c));')
+    L.append('    Main.show("nonempty.eq(empty)", c.eq(Vec.empty<int>()));')
+    L.append('    Main.show("empty.eq(empty)", Vec.empty<int>().eq(Vec.empty<int>()));')
+    L.append('    Main.show("self", c.eq(c));')
+    text = ('class Main {\n  function show(label: Str, b: bool): unit = if b { Process.println(label :: ": T") } else { Process.println(label :: ": F") }\n'
+            '  function main(): unit = {\n    let z = "0".toInt();\n' + '\n'.join(L) + '\n  }\n}\n')
+    return {'sources': {'Main': text}, 'entry': 'Main', 'features': ['builtins']}
+
+
+def gen_layout_program(rng, nty=4, single_field=True):
+    _LBASE[0] = _LBASE_ALL if single_field else _LBASE_MULTI
+    try:
+        return _gen_layout_program(rng, nty)
+    finally:
+        _LBASE[0] = _LBASE_ALL
+
+
+def _gen_layout_program(rng, nty):
     funs, prints = [], []
     for i in range(nty):
         t = _lt(rng, rng.range(1, 3))
         arms = _larms(t, 'p', [0])
         funs.append('  function sh%d(v: %s): int = match v { %s }' % (i, _tname(t), ', '.join('%s -> %s' % a for a in arms)))
-        for _ in range(3):
-            prints.append('    Process.println(Str.fromInt(Main.sh%d(%s)));' % (i, _lvals(rng, t, 0)))
+        seen = set()
+        for _ in range(10):                      # distinct values: every constructor path should be hit for small types
+            v = _lvals(rng, t, 0)
+            if v not in seen:
+                seen.add(v)
+                prints.append('    Process.println(Str.fromInt(Main.sh%d(%s)));' % (i, v))
     text = LAYOUT_DECLS + 'class Main {\n' + '\n'.join(funs) + '\n  function main(): unit = {\n' + '\n'.join(prints) + '\n  }\n}\n'
     return {'sources': {'Main': text}, 'entry': 'Main', 'features': ['layout']}
